@@ -203,8 +203,9 @@ def api_calls(rng, n, a5=None):
             c = random_valid_id(rng, 2, 20)
             calls.append(('compact', (sorted([c + 0] + [random_valid_id(rng, 2, 6) for _ in range(5)]),)))
         elif k == 10:
-            c = random_valid_id(rng, 1, 10)
-            calls.append(('uncompact', ([c], min(29, (c and 0) + rng.randint(11, 12)))))
+            c = random_valid_id(rng, 1, 24)
+            from refids import ref_res
+            calls.append(('uncompact', ([c], min(29, ref_res(c) + rng.randint(1, 5)))))
         elif k == 11:
             calls.append(('get_resolution', (random_valid_id(rng, 0, 29),)))
         else:
@@ -613,6 +614,7 @@ def thread_soak(rng, ncalls, nthreads=8, rounds=2):
 def history_search(rng, nhist, hist_len):
     """random call histories on a warm copy, each call compared bit for bit with the same call on a cold copy"""
     fails, n = [], 0
+    transient = []
     for _ in range(nhist):
         a5w, _ = fresh_a5()
         hist = api_calls(rng, hist_len)
@@ -632,8 +634,11 @@ def history_search(rng, nhist, hist_len):
                 except Exception as e:  # noqa
                     rc = ('EXC', type(e).__name__)
                 if rc != rw:
-                    fails.append({'what': f'{name}{args!r} returns a different value after a history of {idx} calls than on a fresh import', 'history': hist[:idx + 1]})
-                    break
+                    # a violation needs a history that replays: run the same history again on a new warm copy against a new cold copy (twice)
+                    if run_history(hist[:idx + 1]) and run_history(hist[:idx + 1]):
+                        fails.append({'what': f'{name}{args!r} returns a different value after a history of {idx} calls than on a fresh import (warm {str(rw)[:80]}, cold {str(rc)[:80]})', 'history': hist[:idx + 1]})
+                        break
+                    transient.append(f'{name}{args!r} after {idx} calls: warm {str(rw)[:120]} cold {str(rc)[:120]} — not reproduced by replaying the same history')
         # mutate returned containers, then repeat the calls
         for name, args in hist[:10]:
             try:
@@ -650,7 +655,7 @@ def history_search(rng, nhist, hist_len):
                 pass
         if len(fails) > 5:
             break
-    return fails, {'history_calls': n, 'histories': nhist}
+    return fails, {'history_calls': n, 'histories': nhist, 'transient_mismatches_not_reproduced': transient}
 
 def face_centre_points(mods):
     crs = mods['a5.projections.dodecahedron'].crs
@@ -705,6 +710,8 @@ def directed_history_search(rng, nq):
                     if len(short) < len(hist) and run_history(short):
                         hist = short
                         break
+                if not run_history(hist):
+                    continue      # not reproduced by replaying the same history: no violation shown
                 fails.append({'what': f'{q[0]}{q[1]!r} returns a different value after a history of {len(hist) - 1} calls (first: {w[0]}{w[1]!r}) than on a fresh import', 'history': hist})
                 break
         if len(fails) >= 3:
